@@ -573,6 +573,42 @@ type TxOpts struct {
 	FeeCoins   sdk.Coins // overrides Fee when non-nil (invalid coin sets)
 	Legacy     bool   // amino encoding
 	BadSignBytes bool // sign over different content (entropy+1): right key, other message
+	// Multi: sign with a multi-signature key made of these member keys (in this order);
+	// MultiSignOrder optionally permutes the order in which signatures are placed
+	Multi          []crypto.PrivateKey
+	MultiSignOrder []int
+}
+
+// MultiKey builds the multi-signature public key of the given members.
+func MultiKey(members []crypto.PrivateKey) crypto.PublicKeyMultiSignature {
+	var pks []crypto.PublicKey
+	for _, m := range members {
+		pks = append(pks, m.PublicKey())
+	}
+	return crypto.PublicKeyMultiSignature{PublicKeys: pks}
+}
+
+// MultiAddr is the account address of a multi-signature key.
+func MultiAddr(members []crypto.PrivateKey) sdk.Address {
+	return sdk.Address(MultiKey(members).Address())
+}
+
+func signMulti(o TxOpts, sb []byte) ([]byte, crypto.PublicKey) {
+	ms := crypto.MultiSignature{Sigs: make([][]byte, 0, len(o.Multi))}
+	order := o.MultiSignOrder
+	if order == nil {
+		for i := range o.Multi {
+			order = append(order, i)
+		}
+	}
+	for _, i := range order {
+		sig, err := o.Multi[i].Sign(sb)
+		if err != nil {
+			panic(err)
+		}
+		ms.Sigs = append(ms.Sigs, sig)
+	}
+	return ms.Marshal(), MultiKey(o.Multi)
 }
 
 // SignTx builds, signs and encodes a StdTx with the real codec for the current height.
@@ -593,9 +629,16 @@ func (s *Sim) SignTx(msg sdk.ProtoMsg, o TxOpts) []byte {
 	if err != nil {
 		panic(err)
 	}
-	sig, err := o.Signer.Sign(sb)
-	if err != nil {
-		panic(err)
+	var sig []byte
+	var pub crypto.PublicKey
+	if len(o.Multi) > 0 {
+		sig, pub = signMulti(o, sb)
+	} else {
+		sig, err = o.Signer.Sign(sb)
+		if err != nil {
+			panic(err)
+		}
+		pub = o.Signer.PublicKey()
 	}
 	if o.CorruptSig {
 		sig[len(sig)/2] ^= 0x01
@@ -603,7 +646,7 @@ func (s *Sim) SignTx(msg sdk.ProtoMsg, o TxOpts) []byte {
 	if o.NoSig {
 		sig = []byte{}
 	}
-	ss := authTypes.StdSignature{PublicKey: o.Signer.PublicKey(), Signature: sig}
+	ss := authTypes.StdSignature{PublicKey: pub, Signature: sig}
 	if o.NoPubKey {
 		ss.PublicKey = nil
 	}
